@@ -20,13 +20,13 @@ static var args_tuple; static var arg_items[9]; static int64_t in_i[8]; static d
 size_t len(var self) { if (self == args_tuple) return NARGS_GIVEN; struct Tuple* t = self; size_t n = 0; while (t->items[n] != Terminal) n++; return n; }
 var get(var self, var key) {
   int64_t i = ((struct Int*)key)->val;
-  if (self == args_tuple) { __CPROVER_assert(i >= 0 && i < NARGS_GIVEN, "get(args, i) within the argument tuple"); return arg_items[i]; }
+  if (self == args_tuple) { __CPROVER_assert(i >= 0 && i < NARGS_GIVEN, "harness: get(args, i) within the argument tuple"); return arg_items[i]; }
   return ((struct Tuple*)self)->items[i];
 }
 /* c_int / c_float are the real ones of src/Num.c (fast path on type_of) */
 /* c_str is the real one of src/String.c (fast path on type_of) */
 var instance(var self, var cls) { return NULL; }
-var method_at_offset(var self, var cls, size_t offset, const char* m) { __CPROVER_assert(0, "no method dispatch expected"); return NULL; }
+var method_at_offset(var self, var cls, size_t offset, const char* m) { __CPROVER_assert(0, "harness: no method dispatch expected"); return NULL; }
 var assign(var self, var obj) {
   if (HDR(self)->type == Int) ((struct Int*)self)->val = ((struct Int*)obj)->val;
   else if (HDR(self)->type == Float) ((struct Float*)self)->val = ((struct Float*)obj)->val;
